@@ -25,7 +25,7 @@ TWO_PI = 2 * math.pi
 ALPH = {0: [-1.0, 0.0, 2.0], 1: [1.0, 0.0, -3.0], 2: [0.5, 0.0, 4.0]}
 SPACINGS = {1: [[1.0], [0.5], [1.6]], 2: [[1.0, 1.0], [0.5, 2.0], [1.6, 1.0]], 3: [[1.0, 1.0, 1.0], [1.0, 2.0, 0.5]]}
 ORIGINS = [0.0, 0.3]
-SCALES = [-3.0, 0.5, 1e6]
+SCALES = [-3.0, 0.5, 1e6, 1e-7]
 
 
 def blocks(tier, seed):
@@ -219,9 +219,10 @@ def run_case(case, ctx):
         kz, Sz = gsf(ScalarField(g0, f), smoothing=smoothing, wave_numbers=wn, add_zero=True)
         ctx.op()
         ctx.check("C16.add-zero", len(kz) == 4 and kz[0] == 0 and Sz[0] == 1 and np.array_equal(kz[1:], wn) and np.allclose(Sz[1:], Ssm, rtol=1e-12, atol=0), {"kz": kz, "Sz": Sz})
-        _, Sc = gsf(ScalarField(g0, -3.0 * f), smoothing=smoothing, wave_numbers=wn)
-        ctx.op()
-        ctx.check("C16.smooth-invariance", bool(np.allclose(Sc, Ssm, rtol=1e-9, atol=1e-14)), {"what": "scale", "a": Ssm, "b": Sc})
+        for c_ in (-3.0, 1e-7):
+            _, Sc = gsf(ScalarField(g0, c_ * f), smoothing=smoothing, wave_numbers=wn)
+            ctx.op()
+            ctx.check("C16.smooth-invariance", bool(np.allclose(Sc, Ssm, rtol=1e-9, atol=1e-14)), {"what": "scale", "c": c_, "a": Ssm, "b": Sc})
         sh = tuple(1 for _ in shape)
         _, Ss = gsf(ScalarField(g0, np.roll(f, sh, axis=tuple(range(dim)))), smoothing=smoothing, wave_numbers=wn)
         ctx.op()
